@@ -133,4 +133,58 @@ LEMMAS = [
         proof="h = 0\nwhile h < n:\n    h += 1",
         loops={1: dict(invariant={"range": "0 <= h <= n", "same": "rsum(a, d, lo, lo + h) == rsum(a2, d2, lo2, lo2 + h)"}, variant="n - h")},
     ),
+    # ------------------------------------------------------------------ mixed-radix values (C01 / C05)
+    dict(
+        name="wt_store_frame",      # a store at or after hi does not change the product of [lo, hi)
+        params={"dg": "arr", "lo": "int", "hi": "int", "i": "int", "v": "int"},
+        requires={"outside": "i >= hi"},
+        ensures={"frame": "rwt(store(dg, i, v), lo, hi) == rwt(dg, lo, hi)"},
+        triggers=["rwt(store(dg, i, v), lo, hi)"],
+        proof="h = lo\nwhile h < hi:\n    h += 1",
+        loops={1: dict(invariant={"range": "lo <= h and (h <= hi or hi < lo)", "same": "rwt(store(dg, i, v), lo, h) == rwt(dg, lo, h)"}, variant="hi - h")},
+    ),
+    dict(
+        name="lv_store_frame",      # stores at or after hi do not change the little-endian value of [lo, hi)
+        params={"dg": "arr", "dd": "arr", "lo": "int", "hi": "int", "i": "int", "v": "int", "i2": "int", "v2": "int"},
+        requires={"outside": "i >= hi and i2 >= hi"},
+        ensures={"frame": "rlv(store(dg, i, v), store(dd, i2, v2), lo, hi) == rlv(dg, dd, lo, hi)"},
+        triggers=["rlv(store(dg, i, v), store(dd, i2, v2), lo, hi)"],
+        uses=["wt_store_frame"],
+        proof="h = lo\nwhile h < hi:\n    h += 1",
+        loops={1: dict(invariant={"range": "lo <= h and (h <= hi or hi < lo)",
+                                  "same": "rlv(store(dg, i, v), store(dd, i2, v2), lo, h) == rlv(dg, dd, lo, h)"}, variant="hi - h")},
+    ),
+    dict(
+        name="wt_peel",             # product of [lo, hi) = dg[lo] * product of [lo+1, hi)
+        params={"dg": "arr", "lo": "int", "hi": "int"},
+        requires={"non-empty": "lo < hi"},
+        ensures={"peel": "rwt(dg, lo, hi) == dg[lo] * rwt(dg, lo + 1, hi)"},
+        proof="h = lo + 1\nwhile h < hi:\n    h += 1",
+        loops={1: dict(invariant={"range": "lo + 1 <= h <= hi", "peel": "rwt(dg, lo, h) == dg[lo] * rwt(dg, lo + 1, h)"}, variant="hi - h")},
+    ),
+    dict(
+        name="hv_append",           # right-Horner value of [lo, hi+1) = that of [lo, hi) + dd[hi] * product of dg over [lo, hi)
+        params={"dg": "arr", "dd": "arr", "lo": "int", "hi": "int"},
+        requires={"order": "lo <= hi"},
+        ensures={"append": "rhv(dg, dd, lo, hi + 1) == rhv(dg, dd, lo, hi) + dd[hi] * rwt(dg, lo, hi)"},
+        proof="g = hi\nwhile g > lo:\n    wt_peel(dg, g - 1, hi)\n    g -= 1",
+        loops={1: dict(invariant={"range": "lo <= g <= hi", "append": "rhv(dg, dd, g, hi + 1) == rhv(dg, dd, g, hi) + dd[hi] * rwt(dg, g, hi)"},
+                       variant="g - lo")},
+    ),
+    dict(
+        name="hv_lv_dual",          # fold / Horner duality: the right-Horner value equals the little-endian weighted sum
+        params={"dg": "arr", "dd": "arr", "lo": "int", "hi": "int"},
+        requires={"order": "lo <= hi"},
+        ensures={"dual": "rhv(dg, dd, lo, hi) == rlv(dg, dd, lo, hi)"},
+        proof="h = lo\nwhile h < hi:\n    hv_append(dg, dd, lo, h)\n    h += 1",
+        loops={1: dict(invariant={"range": "lo <= h <= hi", "dual": "rhv(dg, dd, lo, h) == rlv(dg, dd, lo, h)"}, variant="hi - h")},
+    ),
+    dict(
+        name="walk_dead",           # once a prefix of the string has left the graph, every longer prefix has too
+        params={"acc": "arr2", "sarr": "arr", "s0": "int", "v0": "int", "p": "int", "q": "int"},
+        requires={"order": "0 <= p and p <= q", "dead": "rwalkv(acc, sarr, s0, v0, p) < 0"},
+        ensures={"stays-dead": "rwalkv(acc, sarr, s0, v0, q) < 0"},
+        proof="h = p\nwhile h < q:\n    h += 1",
+        loops={1: dict(invariant={"range": "p <= h <= q", "dead": "rwalkv(acc, sarr, s0, v0, h) < 0"}, variant="q - h")},
+    ),
 ]
